@@ -72,3 +72,29 @@ def result(obs, findings, nt, labels, *, hang_is_violation: bool = False, prop: 
             findings.append(core.Finding(f'{prop}:run-did-not-terminate', oracles.exc_text(obs.exc)))
     return core.CaseResult(findings=findings, nontrivial=nt, labels=tuple(labels), summary=obs.summary(),
                            inconclusive=obs.timeout and not hang_is_violation, stop_search=obs.timeout)
+
+
+def exhaustive_jobs(tier: str, shards: int = 4) -> list[dict]:
+    return [{'engine': 'exhaustive-small', 'shard': i, 'shards': shards, 'hashseed': i % 8} for i in range(shards)]
+
+
+def run_exhaustive_job(rec, job: dict, judge, *, failing: bool = False, cached: bool = False) -> None:
+    """Every DAG shape up to the node bound x type/failure assignment x worker count x (optionally) every pre-cached subset, and
+    for each EVERY completion schedule of the ControlledRunner."""
+    from pbt import exhaustive
+    q = rec.tier == 'quick'
+    if failing:
+        it = exhaustive.small_specs(3, types=('N1', 'NN'), modes=('ok', 'raise:ValueError', 'kill9'), reads=(True, False) if not q else (True,))
+    elif cached:
+        def gen():
+            import itertools
+            for sp in exhaustive.small_specs(3, types=('N1', 'Z') if q else ('N1', 'NN', 'Z')):
+                n = len(sp['nodes'])
+                for r in range(n + 1):
+                    for pre in itertools.combinations(range(n), r):
+                        for bust in ((False,) if q else (False, True)):
+                            yield {**sp, 'pre_cached': list(pre), 'lab': {**sp['lab'], 'storage': 'local', 'bust_cache': bust}}
+        it = gen()
+    else:
+        it = exhaustive.small_specs(3 if q else 4, types=('N1', 'N2', 'NN'))
+    exhaustive.run_exhaustive(rec, 'exhaustive-small', it, judge, job['shard'], job['shards'], idle_rounds=1)
